@@ -150,6 +150,9 @@ func lpCaps(kind string) lpItem {
 		b = srv.Capability(srv.CapEntry{Type: 1, Mask: srv.MaskWith(14, lpReqBits...)}, srv.CapEntry{Type: 2, Mask: srv.MaskWith(14, lpRespBits...)}, srv.CapEntry{Type: 3, Mask: []byte{}})
 	case "security-empty+ok":
 		b = srv.Capability(srv.CapEntry{Type: 3, Mask: []byte{}}, srv.CapEntry{Type: 1, Mask: srv.MaskWith(14, lpReqBits...)}, srv.CapEntry{Type: 2, Mask: srv.MaskWith(14, lpRespBits...)})
+	case "ok+type7":
+		// usable masks plus a capability type the client does not know
+		b = srv.Capability(srv.CapEntry{Type: 1, Mask: srv.MaskWith(14, lpReqBits...)}, srv.CapEntry{Type: 2, Mask: srv.MaskWith(14, lpRespBits...)}, srv.CapEntry{Type: 7, Mask: []byte{0, 0, 5}})
 	case "response-empty":
 		b = srv.Capability(srv.CapEntry{Type: 1, Mask: srv.MaskWith(14, lpReqBits...)}, srv.CapEntry{Type: 2, Mask: []byte{}})
 	default:
@@ -528,6 +531,7 @@ func lpRun(seed int64, s lpScript, cfg *tds.LoginConfig, opt lpOptions) lpResult
 				start := fed
 				fed += int64(len(lastPkt))
 				k.tr.SoftEOF(start+8, start+int64(len(lastPkt)))
+				k.tr.SoftEOFWithData = s.Flow == "encrypted" // one flow with data and "nothing more" in one read
 				go func() {
 					defer trickleOnce.Do(func() { close(trickled) })
 					q := (len(lastPkt) - 8) / 4
